@@ -1,5 +1,6 @@
 import KoordVerif.Model.C18
 import KoordVerif.Model.C18Usage
+import KoordVerif.Model.C18Pools
 import KoordVerif.Generated.C18
 /-
 Tie lemmas for C18: constants and guard structure extracted from /repo's current source
@@ -51,5 +52,37 @@ theorem tie_detector_caches :
        "resetNodesAsNormal:prodAnomalyDetectors",
        "tryMarkNodesAsNormal:nodeAnomalyDetectors", "tryMarkNodesAsNormal:prodAnomalyDetectors"] ∧
     C18.continueCondCaches = ["nodeAnomalyDetectors", "prodAnomalyDetectors"] := by decide
+
+/-- conversion: the implicit pool built from the top-level fields is PREPENDED to the user's pools
+    (`convertPools = topPool :: userPools`, `convertPools_default_first`), under its fixed name. -/
+theorem tie_convert_default_first :
+    C18.convertAppendShape = "default-first" ∧ C18.defaultPoolName = "__default_node_pool__" := by decide
+
+/-- defaulting of the anomaly condition: 5 / 3 (`defaultCond`), and the nil / abnormalities == 0 /
+    normalities == 0 tests form ONE if / else-if chain (`defaultTopCond`, `defaultTopCond_norm_zero_iff`). -/
+theorem tie_anomaly_defaults :
+    C18.defaultAnomaly = [(defaultCond.abn : Int), (defaultCond.norm : Int)] ∧
+    C18.topAnomalyChain = ["AnomalyCondition==nil", "ConsecutiveAbnormalities==0", "ConsecutiveNormalities==0"] := by decide
+
+/-- SetDefaults_LowNodeLoadNodePools: exactly these pool fields are taken from the top level when nil
+    (`defaultPool`; the anomaly condition additionally number by number). -/
+theorem tie_pool_inheritance :
+    C18.poolInheritsWhenNil = ["AnomalyCondition", "HighThresholds", "LowThresholds", "ProdHighThresholds",
+      "ProdLowThresholds", "ResourceWeights"] := by decide
+
+/-- filterNodes: no early return for a nil selector, and the loop skips processed nodes for every
+    pool (`filterNodes`, `filterNodes_skips_processed`). -/
+theorem tie_filterNodes :
+    C18.filterNodesNilSelectorReturns = false ∧ C18.filterNodesSkipsProcessed = true := by decide
+
+/-- processOneNodePool inserts the node-level sources AND the prod sources into processedNodes right
+    after BOTH filterRealAbnormalNodes calls: behind three returning guards (filterNodes error, "no nodes"
+    = exit 1, "no source nodes" = exit 2) and before every other exit and the eviction call
+    (`poolSources`, `poolStep`: sources unless exit 1 or 2); Balance shares one processedNodes set among
+    the pools (`balancePools`). -/
+theorem tie_processed_nodes :
+    C18.processedInsertLoops = ["prodHighNodes", "sourceNodes"] ∧
+    C18.processedInsertGuardsBefore = 1 + 2 ∧ C18.processedInsertMarkCallsBefore = 2 ∧
+    C18.processedInsertAfterEvict = false ∧ C18.processedSharedByPools = true := by decide
 
 end KoordVerif.C18
